@@ -521,7 +521,7 @@ func rulesDo() {
 func TestA(t *testing.T) {
 	rules()
 	h.RunProp(t, propAGrid, 0)
-	h.RunProp(t, propA, h.N(12000, 160000))
+	h.RunProp(t, propA, h.N(12000, 100000))
 	h.Enumerate(t, propAGrid, func(yield func(Case) bool) {
 		idx := 0
 		gridShapes(h.Thorough(), func(c Case) bool {
